@@ -17,5 +17,5 @@ mv "tests/demo_$M.rs" /tmp/demo_hold_$$.rs
 timeout 1500 cargo test --workspace --no-fail-fast --offline 2>&1 | grep -E "^test result|FAILED$|^test .* FAILED" | tr '\n' ';'; echo
 mv /tmp/demo_hold_$$.rs "tests/demo_$M.rs"
 echo "[4] demo with patch"
-timeout 900 cargo test --offline --test "demo_$M" 2>&1 | grep -E "^test result|error(\[|:)|stack overflow" | head -3
+timeout 900 cargo test --offline --test "demo_$M" 2>&1 | grep -a -E "^test result|error(\[|:)|stack overflow" | head -3
 git checkout -q -- src; rm -f tests/demo_m*.rs
